@@ -26,14 +26,20 @@ extern "C" void symx_observe(uint64_t);
 #define T1_32 0x08000000
 #define T1_64 0x04000000
 
-static uint32_t S[PLN], S2[NEXT];                 /* the secret keys (binary, symbolic) */
+static uint32_t S[PLN + 1], S2[NEXT];                 /* the secret keys (binary, symbolic) */
 static const LweBootstrappingKeyFFT *the_bkfft = 0;
 static int bs_calls = 0, bs_bad = 0, ks_calls = 0;
 static int64_t bs_margin[2];
 static uint32_t bs_xa[2][PLN], bs_xb[2], bs_mu[2];
 static int64_t need_margin = T1_16;
+#ifndef PLN2
+#define PLN2 (PLN + 1)
+#endif
+static int world_n = PLN;        /* LWE dimension of the key set in use (PLN, or PLN2 for a second key set in the same process) */
+static int two_n = 0;            /* > 0: record the first two_n mask coefficients handed to each bootstrapping */
+static uint32_t two_xa[2][PLN2];
 static uint32_t ks_xa[NEXT], ks_xb;
-static uint32_t bs_ra[2][NEXT > PLN ? NEXT : PLN], bs_rb[2];
+static uint32_t bs_ra[2][(NEXT > PLN ? NEXT : PLN) + 1], bs_rb[2];
 
 static uint32_t phase_S(const LweSample *c) { uint32_t p = (uint32_t) c->b; for (int i = 0; i < PLN; i++) p -= (uint32_t) c->a[i] * S[i]; return p; }
 static uint32_t phase_S2(const LweSample *c) { uint32_t p = (uint32_t) c->b; for (int i = 0; i < NEXT; i++) p -= (uint32_t) c->a[i] * S2[i]; return p; }
@@ -50,6 +56,7 @@ static void bootstrap_contract(LweSample *res, const LweBootstrappingKeyFFT *bk,
     int64_t d0 = absd(px), dh = ((int64_t) 1 << 31) - d0;
     bs_margin[c] = d0 < dh ? d0 : dh;
     for (int i = 0; i < PLN; i++) bs_xa[c][i] = (uint32_t) x->a[i];
+    for (int i = 0; i < two_n; i++) two_xa[c][i] = (uint32_t) x->a[i];
     bs_xb[c] = (uint32_t) x->b; bs_mu[c] = (uint32_t) mu;
     bool positive = (int32_t) px > 0;
     if (bs_margin[c] < need_margin) positive = nondet_u32() & 1;      /* outside the contract: anything */
@@ -68,7 +75,7 @@ static void bootstrap_contract(LweSample *res, const LweBootstrappingKeyFFT *bk,
 }
 #if STUB_ON(stub_tfhe_bootstrap_FFT)
 extern "C" void STUBNAME(tfhe_bootstrap_FFT)(LweSample *res, const LweBootstrappingKeyFFT *bk, Torus32 mu, const LweSample *x) {
-    bootstrap_contract(res, bk, mu, x, PLN, S, T1_32);
+    bootstrap_contract(res, bk, mu, x, world_n, S, T1_32);
 }
 #endif
 #if STUB_ON(stub_tfhe_bootstrap_woKS_FFT)
@@ -88,7 +95,7 @@ extern "C" void STUBNAME(lweKeySwitch)(LweSample *res, const LweKeySwitchKey *ks
 #if MODE == 0
     b = nondet_u32();
 #endif
-    for (int i = 0; i < PLN; i++) { uint32_t a = MODE == 0 ? nondet_u32() : 0u; res->a[i] = (Torus32) a; b += a * S[i]; }
+    for (int i = 0; i < world_n; i++) { uint32_t a = MODE == 0 ? nondet_u32() : 0u; res->a[i] = (Torus32) a; b += a * S[i % PLN]; }
     res->b = (Torus32) b;
     res->current_variance = 0.;
     ks_calls++;
@@ -101,7 +108,7 @@ struct World {
     LweKey *lk; TGswKey *gk; TFheGateBootstrappingSecretKeySet *sk;
 };
 static void world(World &w) {
-    w.lp = new_LweParams(PLN, 0.0, 1.0);
+    w.lp = new_LweParams(world_n, 0.0, 1.0);
     w.tp = new_TLweParams(NEXT, 1, 0.0, 1.0);
     w.gp = new_TGswParams(2, 8, w.tp);
     w.ps = new TFheGateBootstrappingParameterSet(1, 1, w.lp, w.gp);
@@ -110,7 +117,7 @@ static void world(World &w) {
     w.ck = new TFheGateBootstrappingCloudKeySet(w.ps, 0, w.bkfft);
     w.lk = new_LweKey(w.lp);
     w.gk = new_TGswKey(w.gp);
-    for (int i = 0; i < PLN; i++) { S[i] = MODE == 0 ? 0u : nondet_u32(); ASSUME(S[i] <= 1); w.lk->key[i] = (int32_t) S[i]; }
+    for (int i = 0; i < world_n; i++) { S[i] = MODE == 0 ? 0u : nondet_u32(); ASSUME(S[i] <= 1); w.lk->key[i] = (int32_t) S[i]; }
     for (int i = 0; i < NEXT; i++) { S2[i] = MODE == 0 ? 0u : nondet_u32(); ASSUME(S2[i] <= 1); }
     w.sk = new TFheGateBootstrappingSecretKeySet(w.ps, 0, w.bkfft, w.lk, w.gk);
     the_bkfft = w.bkfft;
@@ -238,6 +245,66 @@ HARNESS(h_gate1) {
 #endif
     CHECK(bs_calls == 0 && ks_calls == 0, "C01 NOT/COPY/CONSTANT do not bootstrap");
     check_output(w, res, want, T1_32);
+    symx_witness();
+}
+#endif
+
+/* a second key set with another LWE dimension in the same process: nothing a gate remembers from an earlier call (function-static
+   locals) may leak into the next one. coordinates only. */
+#ifndef PLN2
+#define PLN2 (PLN + 1)
+#endif
+#if GATE == 0
+#define G2 bootsNAND
+#define G2SA (-1)
+#define G2SB (-1)
+#elif GATE == 3
+#define G2 bootsXOR
+#define G2SA 2
+#define G2SB 2
+#else
+#define G2 bootsAND
+#define G2SA 1
+#define G2SB 1
+#endif
+#if GATE <= 10 && MODE == 0
+static LweSample *anysample(World &w, int n, uint32_t *a_out) {
+    LweSample *c = new_LweSample(w.lp);
+    for (int i = 0; i < n; i++) { uint32_t a = nondet_u32(); c->a[i] = (Torus32) a; a_out[i] = a; }
+    c->b = (Torus32) nondet_u32();
+    c->current_variance = 0.;
+    return c;
+}
+HARNESS(h_two_keysets) {
+    World w1; world_n = PLN; world(w1);
+    uint32_t a1[PLN2], b1[PLN2], c1[PLN2];
+    LweSample *x1 = anysample(w1, PLN, a1), *y1 = anysample(w1, PLN, b1), *z1 = anysample(w1, PLN, c1), *r1 = new_LweSample(w1.lp);
+#if GATE == 10
+    bootsMUX(r1, x1, y1, z1, w1.ck);
+#elif GATE == 0
+    bootsNAND(r1, x1, y1, w1.ck);
+#elif GATE == 3
+    bootsXOR(r1, x1, y1, w1.ck);
+#else
+    bootsAND(r1, x1, y1, w1.ck);
+#endif
+    /* second key set, larger dimension; the recorder stubs index by PLN2 from here on */
+    World w2; world_n = PLN2; world(w2);
+    uint32_t a2[PLN2], b2[PLN2], c2[PLN2];
+    LweSample *x2 = anysample(w2, PLN2, a2), *y2 = anysample(w2, PLN2, b2), *z2 = anysample(w2, PLN2, c2), *r2 = new_LweSample(w2.lp);
+    two_n = PLN2;
+#if GATE == 10
+    bootsMUX(r2, x2, y2, z2, w2.ck);
+    CHECK(bs_calls == 2 && !bs_bad && ks_calls == 1, "C01 second key set: MUX call structure");
+    for (int i = 0; i < PLN2; i++) {
+        CHECK(two_xa[0][i] == a2[i] + b2[i] + CANARY, "C01 second key set: MUX first bootstrapped sample = (0,-1/8) + a + b over all n coefficients of THIS key set");
+        CHECK(two_xa[1][i] == c2[i] - a2[i], "C01 second key set: MUX second bootstrapped sample over all n coefficients of THIS key set");
+    }
+#else
+    G2(r2, x2, y2, w2.ck);
+    CHECK(bs_calls == 1 && !bs_bad, "C01 second key set: call structure");
+    for (int i = 0; i < PLN2; i++) CHECK(two_xa[0][i] == lin(G2SA, a2[i]) + lin(G2SB, b2[i]) + CANARY, "C01 second key set: bootstrapped sample over all n coefficients of THIS key set");
+#endif
     symx_witness();
 }
 #endif
